@@ -44,16 +44,18 @@ Step(tr, s, ev) ==
        ELSE IF ev.raised # (ev.t \in SeqSet(tr.faults)) THEN <<s, "C20:callback-outcome-differs-from-the-injected-fault">>
        ELSE IF ev.raised
             THEN <<[s EXCEPT !.consulted = @ \cup {ev.t}, !.failed = Append(@, ev.t),
-                             !.finished = @ \cup {c.chunk}, !.cur[w] = Idle,
+                             \* serial: the exception propagates at once; pooled: the task ends (an "end" event follows)
+                             !.cur[w].phase = IF tr.mode = "serial" THEN "idle" ELSE "fill",
                              !.stopped = (tr.mode = "serial")], "">>
             ELSE <<[s EXCEPT !.consulted = @ \cup {ev.t}, !.cur[w].phase = "fill", !.cur[w].pos = IF tr.mode = "serial" THEN ev.t ELSE c.pos], "">>
   ELSE IF ev.e = "fill" THEN
        LET mine == IF tr.mode = "serial" THEN c.pos ELSE IF c.phase = "fill" THEN ChunkTasks(tr, c.chunk)[c.pos] ELSE 0 IN
        IF c.phase # "fill" \/ ev.t # mine THEN <<s, "C20:sub-cube-filled-without-consulting-the-callback-first">>
        ELSE <<s, "">>
-  ELSE \* "end"
-       LET mine == IF tr.mode = "serial" THEN c.pos ELSE IF c.phase = "fill" THEN ChunkTasks(tr, c.chunk)[c.pos] ELSE 0 IN
-       IF c.phase # "fill" \/ ev.t # mine THEN <<s, "C16:event-not-allowed-by-the-pool-model">>
+  ELSE \* "end": the task returned - after its fills, or (phase "check") because it was skipped after a recorded failure
+       LET mine == IF tr.mode = "serial" THEN c.pos ELSE IF c.phase \in {"fill", "check"} THEN ChunkTasks(tr, c.chunk)[c.pos] ELSE 0 IN
+       IF ev.t # mine \/ c.phase \notin {"fill", "check"} THEN <<s, "C16:event-not-allowed-by-the-pool-model">>
+       ELSE IF c.phase = "check" /\ s.failed = <<>> THEN <<s, "C20:sub-cube-skipped-without-an-interrupt">>
        ELSE IF tr.mode = "serial" THEN <<[s EXCEPT !.cur[w] = Idle], "">>
        ELSE IF c.pos < Len(ChunkTasks(tr, c.chunk))
             THEN <<[s EXCEPT !.cur[w].phase = "check", !.cur[w].pos = c.pos + 1], "">>
@@ -62,10 +64,11 @@ Step(tr, s, ev) ==
 \* judgement once all events are consumed
 Final(tr, s) ==
   LET raisedExpected == s.failed # <<>> IN
-  (IF tr.mode = "pool" /\ s.finished # 1..NChunks(tr) THEN {"C16:a-chunk-was-never-finished"} ELSE {})
+  (IF tr.mode = "pool" /\ tr.outcome # "hung" /\ s.finished # 1..NChunks(tr) THEN {"C16:a-chunk-was-never-finished"} ELSE {})
   \cup (IF ~ChunkSizeOK(tr) THEN {"C16:chunking-differs-from-the-pool-model"} ELSE {})
-  \cup (IF raisedExpected /\ tr.outcome # "raised" THEN {"C20:interrupt-not-propagated"} ELSE {})
-  \cup (IF ~raisedExpected /\ tr.outcome # "returned" THEN {"C20:raised-without-an-interrupt"} ELSE {})
+  \cup (IF tr.outcome = "hung" THEN {"C20:evaluation-never-returns-when-the-interrupt-is-not-an-Exception"} ELSE {})
+  \cup (IF raisedExpected /\ tr.outcome \notin {"raised", "hung"} THEN {"C20:interrupt-not-propagated"} ELSE {})
+  \cup (IF ~raisedExpected /\ tr.outcome = "raised" THEN {"C20:raised-without-an-interrupt"} ELSE {})
   \cup (IF tr.outcome = "raised" /\ ~tr.tagok THEN {"C20:propagated-exception-is-not-the-callbacks"} ELSE {})
   \cup (IF tr.mode # "real" /\ ~raisedExpected /\ s.consulted # 1..tr.T THEN {"C20:callback-not-consulted-for-every-sub-cube"} ELSE {})
   \cup (IF tr.outcome = "returned" /\ ~tr.sameasserial THEN {"C16:pooled-output-differs-from-serial"} ELSE {})
